@@ -775,6 +775,8 @@ def _fold_literals(P: Program, f: Func) -> Func:
     for x in own_nodes(f.node):
         if isinstance(x, ast.Attribute) and x.attr == "_fields":
             interesting = True
+        if isinstance(x, ast.Call) and isinstance(x.func, (ast.Call, ast.Name)) and norm.call_name(x.func if isinstance(x.func, ast.Call) else x) in ("attrgetter", "getattr"):
+            interesting = True
         if isinstance(x, (ast.DictComp, ast.ListComp, ast.SetComp)) and len(x.generators) == 1 and isinstance(x.generators[0].iter, (ast.Tuple, ast.List, ast.Attribute)):
             interesting = True
         if isinstance(x, ast.Call) and isinstance(x.func, ast.Name) and x.func.id in ("list", "tuple") and len(x.args) == 1 and isinstance(x.args[0], (ast.Tuple, ast.List, ast.Attribute)):
@@ -804,6 +806,10 @@ def _fold_literals(P: Program, f: Func) -> Func:
                 changed = True
                 mk = ast.List if n.func.id == "list" else ast.Tuple
                 return ast.copy_location(mk(elts=n.args[0].elts, ctx=ast.Load()), n)
+            if isinstance(n.func, ast.Call) and isinstance(n.func.func, ast.Name) and n.func.func.id == "attrgetter" and len(n.func.args) == 1 and not n.func.keywords \
+                    and isinstance(n.func.args[0], ast.Constant) and isinstance(n.func.args[0].value, str) and n.func.args[0].value.isidentifier() and len(n.args) == 1 and not n.keywords:
+                changed = True
+                return ast.copy_location(ast.Attribute(value=n.args[0], attr=n.func.args[0].value, ctx=ast.Load()), n)      # attrgetter('f')(x)  ->  x.f
             if isinstance(n.func, ast.Name) and n.func.id == "getattr" and len(n.args) == 2 and not n.keywords and isinstance(n.args[1], ast.Constant) \
                     and isinstance(n.args[1].value, str) and n.args[1].value.isidentifier():
                 changed = True
